@@ -56,6 +56,18 @@ impl<'ast> Visit<'ast> for V {
             syn::Pat::Type(pt) => (&*pt.pat, true),
             p => (p, true),
         };
+        // `let (a, b) = (x, y);`
+        if let (syn::Pat::Tuple(pt), Some(init)) = (pat, &l.init) {
+            if let Expr::Tuple(et) = &*init.expr {
+                if pt.elems.len() == et.elems.len() {
+                    for (p, e) in pt.elems.iter().zip(et.elems.iter()) {
+                        if let syn::Pat::Ident(pi) = p {
+                            self.lets.insert(pi.ident.to_string(), squash(&toks(e)));
+                        }
+                    }
+                }
+            }
+        }
         if let (syn::Pat::Ident(pi), Some(init), true) = (pat, &l.init, ty_ok) {
             let name = pi.ident.to_string();
             let t = squash(&toks(&*init.expr));
@@ -162,7 +174,12 @@ impl<'ast> Visit<'ast> for V {
         } else if f == "insert_string" {
             self.push(".tableInsert");
         } else if f.ends_with("::with_capacity") || f.ends_with("::with_capacity_and_hasher") {
-            let a = c.args.first().map(|a| squash(&toks(a))).unwrap_or_default();
+            let mut a = c.args.first().map(|a| squash(&toks(a))).unwrap_or_default();
+            for _ in 0..3 {
+                if let Some(init) = self.lets.get(&a) {
+                    a = init.clone();
+                }
+            }
             if a == "self.strings.len()" || a == "self.map.len()" {
                 self.push(".presizeExact");
             } else {
@@ -177,8 +194,9 @@ impl<'ast> Visit<'ast> for V {
         let recv = squash(&toks(&*m.receiver));
         let name = m.method.to_string();
         match (recv.as_str(), name.as_str()) {
-            ("arena", "store_str") => self.push(".store"),
-            ("strings", "push") => self.push(".stringsPush"),
+            // (whatever the arena / vector parameters are called)
+            (_, "store_str") => self.push(".store"),
+            (r, "push") if !r.starts_with("self.") => self.push(".stringsPush"),
             (_, "hash_one") => self.push(".hashOne"),
             ("self", "clear") => self.push(".clearTarget"),
             ("self.hasher", "clone") => self.push(".cloneHasher"),
